@@ -27,8 +27,8 @@ use std::task::{Poll, Waker};
 
 pub const META: Meta = Meta {
     level: "model_checking",
-    rule: "delivery (E1): write sequences over sizes {0,1,2,MAX-1,MAX,MAX+1,2*MAX+1} (MAX = 64511): quick = every single write (either role writing), every pair over {0,1,MAX-1,MAX,MAX+1} and 2*MAX+1 paired with 1 / MAX on either side (initiator writing); thorough = every single write (either role) and every pair (initiator writing) at bound 2, every pair (responder writing) and every sequence of 3 (initiator writing) at bound 1; x {flush after every write, flush at the end}, over two real noise Outputs produced by a real XX handshake; per configuration every execution with <= bound deviations after the handshake (transport reads/writes cut to 1, 2 or 65537 bytes, injected Pending on read/write/flush, non-round-robin task choice); bound 1 quick; thorough as stated, with a wall-clock cap of 480 s per worker after which remaining configurations drop to bound 1 (reported as a cap). Tamper (E3): a recorded stream of 3 frames (plaintexts of 5, 1, 16 bytes; thorough adds a 4-frame stream with a 300-byte plaintext, initiator writing): every byte x 8 one-bit flips (quick) / 255 values (thorough), every truncation, in both directions, followed by EOF. Non-trivial = delivery executions with >=1 deviation; every tampered stream.",
-    explanation: "Delivery: E1 stateless deviation-bounded DFS over the real Output futures; oracle: the reader obtains exactly the concatenation of the writes and a clean EOF, the reply arrives intact. Tamper: fault enumeration on the recorded ciphertext; oracle: the bytes read are a prefix of the plaintext and, for byte corruption, the read sequence ends in an error (never altered bytes, never a clean EOF).",
+    rule: "delivery (E1): write sequences over sizes {0,1,2,MAX-1,MAX,MAX+1,2*MAX+1} (MAX = 64511): quick = every single write (either role writing), every pair over {0,1,MAX-1,MAX,MAX+1} and 2*MAX+1 paired with 1 / MAX on either side (initiator writing); thorough = every single write (either role) and every pair (initiator writing) at bound 2, every pair (responder writing) and every sequence of 3 (initiator writing) at bound 1; x writer script {flush once at the end; flush after every write; never flush and close() right after the last write; flush after every write but the last then close() without flush}, over two real noise Outputs produced by a real XX handshake; per configuration every execution with <= bound deviations after the handshake (transport reads/writes cut to 1, 2 or 65537 bytes, injected Pending on read/write/flush, non-round-robin task choice); bound 1 quick; thorough as stated, with a wall-clock cap of 480 s per worker after which remaining configurations drop to bound 1 (reported as a cap). Tamper (E3): a recorded stream of 3 frames (plaintexts of 5, 1, 16 bytes; thorough adds a 4-frame stream with a 300-byte plaintext, initiator writing): every byte x 8 one-bit flips (quick) / 255 values (thorough), every truncation, in both directions, followed by EOF. Non-trivial = delivery executions with >=1 deviation; every tampered stream.",
+    explanation: "Delivery: E1 stateless deviation-bounded DFS over the real Output futures; oracle: the reader obtains exactly the concatenation of the writes before a clean EOF (also when the writer only calls close()), the reply arrives intact. Tamper: fault enumeration on the recorded ciphertext; oracle: the bytes read are a prefix of the plaintext and, for byte corruption, the read sequence ends in an error (never altered bytes, never a clean EOF).",
     assumptions: &["poll-granularity interleaving on one thread", "chunking deviations start after both handshakes completed (handshake chunking belongs to C16/C14 style checks)", "snow / ring AEAD trusted; manipulations are enumerated, not computational"],
 };
 
@@ -83,7 +83,10 @@ fn noise_cfg(i: u8) -> libp2p_noise::Config {
 // ---------------------------------------------------------------------------------------------
 // delivery
 
-fn deliver_one(sizes: &[usize], flush_each: bool, init_writes: bool, sched: bool) -> Result<(), String> {
+/// `flush` = writer script: 0 flush once after the last write, close after the reply; 1 flush after
+/// every write; 2 never flush, close() right after the last write; 3 flush after every write but the
+/// last, then close() without flush
+fn deliver_one(sizes: &[usize], flush: u8, init_writes: bool, sched: bool) -> Result<(), String> {
     let (a, b) = pipe::pair(PipeCfg::default());
     let armed = Arc::new(AtomicBool::new(false));
     let a = Chunky { inner: a, armed: armed.clone(), alts: ALTS };
@@ -111,7 +114,8 @@ fn deliver_one(sizes: &[usize], flush_each: bool, init_writes: bool, sched: bool
                 gate.wait().await;
                 if writes {
                     let mut off = 0;
-                    for sz in sizes {
+                    let last = sizes.len().saturating_sub(1);
+                    for (wi, sz) in sizes.into_iter().enumerate() {
                         let mut rest = &data[off..off + sz];
                         off += sz;
                         if rest.is_empty() {
@@ -127,16 +131,23 @@ fn deliver_one(sizes: &[usize], flush_each: bool, init_writes: bool, sched: bool
                             }
                             rest = &rest[n..];
                         }
-                        if flush_each {
+                        if flush == 1 || (flush == 3 && wi != last) {
                             out.flush().await.map_err(|e| format!("flush: {e}"))?;
                         }
                     }
-                    out.flush().await.map_err(|e| format!("flush: {e}"))?;
+                    if flush >= 2 {
+                        // close() alone must deliver whatever is still buffered
+                        out.close().await.map_err(|e| format!("close: {e}"))?;
+                    } else {
+                        out.flush().await.map_err(|e| format!("flush: {e}"))?;
+                    }
                     let mut got = Vec::new();
                     let mut buf = [0u8; 3];
                     out.read_exact(&mut buf).await.map_err(|e| format!("read reply: {e}"))?;
                     got.extend_from_slice(&buf);
-                    out.close().await.map_err(|e| format!("close: {e}"))?;
+                    if flush < 2 {
+                        out.close().await.map_err(|e| format!("close: {e}"))?;
+                    }
                     side.borrow_mut().got = got;
                 } else {
                     let mut got = vec![0u8; data.len()];
@@ -184,7 +195,7 @@ fn deliver_one(sizes: &[usize], flush_each: bool, init_writes: bool, sched: bool
 
 fn deliver_body(cfg: &Value) -> impl FnMut(&mut Chooser) -> Result<(), String> {
     let sizes: Vec<usize> = serde_json::from_value(cfg["sizes"].clone()).unwrap_or_default();
-    let fe = cfg["flush_each"].as_bool().unwrap_or(false);
+    let fe = cfg["flush"].as_u64().map(|v| v as u8).unwrap_or(if cfg["flush_each"].as_bool().unwrap_or(false) { 1 } else { 0 });
     let iw = cfg["init_writes"].as_bool().unwrap_or(true);
     move |ch: &mut Chooser| {
         let sizes = sizes.clone();
@@ -334,9 +345,11 @@ fn tamper_case(c: &Value) -> Result<&'static str, String> {
 fn deliver_cfgs(ctx: &Ctx) -> Vec<Value> {
     let mut cfgs = Vec::new();
     let mut push = |idx: &[usize], iws: &[bool], bound: u32| {
-        for fe in [false, true] {
+        // writer scripts (see deliver_one); for a single write 1 == 0 and 3 == 2
+        let modes: &[u8] = if idx.len() == 1 { &[0, 2] } else { &[0, 1, 2, 3] };
+        for &fl in modes {
             for &iw in iws {
-                cfgs.push(json!({"sizes": idx.iter().map(|&i| SIZES[i]).collect::<Vec<_>>(), "flush_each": fe, "init_writes": iw, "bound": bound}));
+                cfgs.push(json!({"sizes": idx.iter().map(|&i| SIZES[i]).collect::<Vec<_>>(), "flush": fl, "init_writes": iw, "bound": bound}));
             }
         }
     };
